@@ -51,6 +51,25 @@ CATALOGUE = [
                     yield trash_info_path''',
   '''                    yield trash_info_path
                     yield (path_of_backup_copy(trash_info_path))'''),
+ ('restore-exists', 'C06', 'trashcli/restore/file_system.py',
+  'return os.path.lexists(path)', 'return os.path.exists(path)'),
+ ('restore-overwrite-inverted', 'C06', 'trashcli/restore/restorer.py',
+  'if not overwrite and self.read_fs.path_exists(trashed_file.original_location):',
+  'if overwrite and self.read_fs.path_exists(trashed_file.original_location):'),
+ ('range-exclusive', 'C13', 'trashcli/restore/range.py',
+  'return iter(range(self.start, self.stop + 1))',
+  'return iter(range(self.start, self.stop))'),
+ ('scope-no-separator', 'C13', 'trashcli/restore/trashed_file.py',
+  'if self.original_location.startswith(path + os.path.sep):',
+  'if self.original_location.startswith(path):'),
+ ('restore-ignores-die', 'C06', 'trashcli/restore/restore_asking_the_user.py',
+  """        except IOError as e:
+            return Left(Die(e))""",
+  """        except IOError as e:
+            return Right(None)"""),
+ ('index-off-by-one', 'C13', 'trashcli/restore/restore_asking_the_user.py',
+  'file_to_restore = [input_read.trashed_files[index] for index in',
+  'file_to_restore = [input_read.trashed_files[index - 1] for index in'),
 ]
 
 
